@@ -156,6 +156,21 @@ func enumPrograms(n, first int, f func(prog []byte)) {
 	rec(1)
 }
 
+// seqs0 returns every concatenation of exactly n elements of al.
+func seqs0(al [][]byte, n int) [][]byte {
+	out := [][]byte{{}}
+	for i := 0; i < n; i++ {
+		var cur [][]byte
+		for _, p := range out {
+			for _, a := range al {
+				cur = append(cur, append(append([]byte{}, p...), a...))
+			}
+		}
+		out = cur
+	}
+	return out
+}
+
 // ---------------------------------------------------------------- stacks
 
 func exact(b ...byte) []byte { // exact-capacity item: an append by the VM can never write into it
@@ -394,6 +409,7 @@ type plan struct {
 	// two-stage base run: 600, then 5000 unless the program is looping
 	quickBase bool
 	lean      bool // skip the need+1 run
+	baseOnly  bool // only the monitored base run (per-instruction potential, end-of-run bounds)
 	family    string
 }
 
@@ -600,7 +616,7 @@ func (w *worker) evalCase(pl plan, prog []byte, args [][]byte) {
 			w.infra = fmt.Sprintf("step driver disagrees with vm.Verify on program %x args %x: driver (%s, %d) Verify (%s, %d)", prog, args, base.class, base.gasLeft, c, g)
 		}
 	}
-	if base.v != nil {
+	if base.v != nil || pl.baseOnly {
 		return // one mechanism per case; the consequences at other limits are not separate findings
 	}
 	limits := w.limits[:0]
@@ -953,12 +969,136 @@ func main() {
 		}
 	})
 
+	// ---- family F4: CHECKPREDICATE rounds whose child parks items on the alt stack
+	// Children: every program of <= 3 (thorough: 4) symbols over a small alphabet that can move items
+	// to the alt stack and back, consume them, fail by VERIFY and push with a cost charged after the
+	// push (PROGRAM, ASSET, CAT) or before it (1, DUP); 0..2 moved items of several sizes (the large
+	// ones cost more than a CHECKPREDICATE does); EVERY child limit 1..need+1 (the child stops at
+	// every step, on every kind of charge), inherit and 2000.
+	childAlpha := [][]byte{{0x6b}, {0x6c}, {0x51}, {0x75}, {0x76}, {0x69}, {0xc4}, {0xc2}, {0x7e}}
+	childWide := append(append([][]byte{}, childAlpha...), []byte{0x00}, []byte{0x6a}, []byte{0x82}, []byte{0x7c}, []byte{0xca}, []byte{0x01, 0x05})
+	var altPreds [][]byte
+	for n := 0; n <= 3; n++ {
+		if thorough {
+			altPreds = append(altPreds, seqs0(childWide, n)...)
+		} else {
+			altPreds = append(altPreds, seqs0(childAlpha, n)...)
+		}
+	}
+	if thorough {
+		altPreds = append(altPreds, seqs0(childAlpha, 4)...)
+	}
+	it120 := exact(bytes.Repeat([]byte{0x22}, 120)...)
+	it200 := exact(bytes.Repeat([]byte{0x33}, 200)...)
+	sizes := [][]byte{itO, itH, it120}
+	if thorough {
+		sizes = [][]byte{itZ, itO, itH, it120, it200}
+	}
+	movedSets := [][][]byte{{}}
+	for _, a := range sizes {
+		movedSets = append(movedSets, [][]byte{a})
+	}
+	for _, a := range sizes {
+		for _, b := range sizes {
+			if !thorough && (len(a) < 32 || len(b) < 32) && !(len(a) == 1 && len(b) == 1) {
+				continue // quick: pairs over the two large sizes, and the pair of one-byte items
+			}
+			if len(a) == 0 || len(b) == 0 {
+				continue // (thorough) the empty item is moved alone
+			}
+			movedSets = append(movedSets, [][]byte{a, b})
+		}
+	}
+	maxChildLimit := int64(run.Pick(160, 420))
+	curFamily = "F4"
+	f4shapes := [][]byte{{0xc0}, append([]byte{0xc0}, pad...)}
+	for from := 0; from < len(altPreds); from += 24 {
+		from := from
+		add(func(w *worker) {
+			to := from + 24
+			if to > len(altPreds) {
+				to = len(altPreds)
+			}
+			k := 0
+			for _, pred := range altPreds[from:to] {
+				for _, moved := range movedSets {
+					// the child's own need on the moved items (as a top-level program it pushes itself with PROGRAM)
+					w.load(pred, moved)
+					w.runs++
+					cb := runMon(w.ctx, bigLimit)
+					if cb.v != nil || cb.class == "runlimit" {
+						continue // reported by F1 / cannot happen for a straight-line child
+					}
+					need := bigLimit - cb.minRun - stackCost(moved)
+					nOp := pushNum(int64(len(moved)))
+					for _, sh := range f4shapes {
+						hi := need + int64(len(sh)) + 2
+						if hi > maxChildLimit {
+							hi = maxChildLimit
+						}
+						for l := int64(0); l <= hi+1; l++ {
+							lim := pushNum(l)
+							if l == hi+1 {
+								lim = pushNum(2000)
+							}
+							k++
+							args := append(append([][]byte{}, moved...), nOp, pred, lim)
+							// every child limit gets the monitored run; the limit sweep of the parent (need located,
+							// need-1, need, need+1, 0, 1, 40) is added at the ends of the child's range and on every 8th limit
+							full := l <= 8 || l >= hi-2 || l%8 == 0
+							pl := plan{family: "F4/checkpredicate-alt", extras: []int64{0, 1, 40}, verify: k%16 == 0, baseOnly: !full}
+							w.evalCase(pl, exact(sh...), args)
+						}
+					}
+				}
+			}
+		})
+	}
+	// the same rounds written into one program, three times over and closed into a loop: the
+	// end-of-run bounds and the located need see what several rounds add up to
+	round := func(item, pred []byte, l int64) []byte {
+		var p []byte
+		p = append(p, vm.PushDataBytes(item)...)
+		p = append(p, 0x51)
+		p = append(p, vm.PushDataBytes(pred)...)
+		p = append(p, vm.PushDataUint64(uint64(l))...)
+		return append(p, 0xc0, 0x75)
+	}
+	roundLimits := []int64{1, 2, 3, 4, 5, 6, 8, 12, 2000}
+	for from := 0; from < len(altPreds); from += 48 {
+		from := from
+		add(func(w *worker) {
+			to := from + 48
+			if to > len(altPreds) {
+				to = len(altPreds)
+			}
+			for _, pred := range altPreds[from:to] {
+				if len(pred) > run.Pick(2, 3) && !bytes.Contains(pred, []byte{0x6b}) {
+					continue // the longest children only when they use the alt stack
+				}
+				for _, item := range sizes {
+					for _, l := range roundLimits {
+						r := round(item, pred, l)
+						straight := exact(append(append(append(append([]byte{}, r...), r...), r...), 0x51)...)
+						w.evalCase(plan{family: "F4/rounds", extras: []int64{0, 1, 40}, verify: true}, straight, nil)
+						if len(item) >= 32 && l <= 6 {
+							loop := exact(append(append(append([]byte{}, r...), 0x63, 0, 0, 0, 0), pad...)...)
+							w.evalCase(plan{family: "F4/rounds-loop", extras: []int64{0, 1, 40, 1000}, verify: true}, loop, nil)
+						}
+					}
+				}
+			}
+		})
+	}
+
 	// ---------------------------------------------------------------- execute
 	// cheap, targeted families first; the long tail (longest programs) last
 	prio := func(u unit) int {
 		switch {
 		case strings.HasPrefix(u.name, "F3"):
 			return 0
+		case strings.HasPrefix(u.name, "F4"):
+			return 1
 		case strings.HasPrefix(u.name, "F2"):
 			return 1
 		}
@@ -1079,7 +1219,10 @@ func main() {
 	run.Set("max_program_symbols", maxLen)
 	run.Set("child_programs", len(preds))
 	run.Set("units", len(units))
-	run.Set("rule", "F1: every program of <= max_program_symbols symbols over the 72-symbol alphabet (one opcode per distinct op implementation; JUMP/JUMPIF with every byte target 0..len+1) x initial stacks x gas limits: <=2 symbols on every stack of 0-3 items over {'',01,32 bytes} (thorough: plus 02; 85 stacks) under every limit 0..40, need-1, need, need+1, 5000 and MaxGasAmount; 3 symbols on 6 stacks (thorough: 40 stacks plus a 0..40 sweep on 6) under need-1, need, need+1, 0, 1, 40 (thorough: MaxGasAmount); (thorough) 4 symbols on 4 stacks under need-1, need. F2: CHECKPREDICATE (alone, followed by an 80-byte push, thorough: preceded/followed by every symbol) over every child program of <= 2 symbols x child limits {inherit,1,need-1,need,need+1,2000} x 9 lower-stack configurations incl. grandchild triples. F3: push^a refund^b sequences (a,b <= 3, thorough 4), the same closed into loops, and a loop that rebuilds a CHECKPREDICATE triple every iteration. A case is a distinct (program, initial stack); its base run is monitored instruction by instruction under limit 5000 (programs of >= 3 symbols: 600 first, 5000 unless the run is a loop), then need is located and the listed limits are run. evaluations = VM runs; distinct_nontrivial = cases whose base run completed >= 2 instructions.")
+	run.Set("f4_child_programs", len(altPreds))
+	run.Set("f4_moved_item_sets", len(movedSets))
+	run.Set("f4_max_child_limit", maxChildLimit)
+	run.Set("rule", "F1: every program of <= max_program_symbols symbols over the 72-symbol alphabet (one opcode per distinct op implementation; JUMP/JUMPIF with every byte target 0..len+1) x initial stacks x gas limits: <=2 symbols on every stack of 0-3 items over {'',01,32 bytes} (thorough: plus 02; 85 stacks) under every limit 0..40, need-1, need, need+1, 5000 and MaxGasAmount; 3 symbols on 6 stacks (thorough: 40 stacks plus a 0..40 sweep on 6) under need-1, need, need+1, 0, 1, 40 (thorough: MaxGasAmount); (thorough) 4 symbols on 4 stacks under need-1, need. F2: CHECKPREDICATE (alone, followed by an 80-byte push, thorough: preceded/followed by every symbol) over every child program of <= 2 symbols x child limits {inherit,1,need-1,need,need+1,2000} x 9 lower-stack configurations incl. grandchild triples. F3: push^a refund^b sequences (a,b <= 3, thorough 4), the same closed into loops, and a loop that rebuilds a CHECKPREDICATE triple every iteration. F4: CHECKPREDICATE (alone, followed by an 80-byte push) over every child program of <= 3 (thorough: 4) symbols over {TOALTSTACK, FROMALTSTACK, 1, DROP, DUP, VERIFY, PROGRAM, ASSET, CAT} (thorough: <= 3 symbols also over 0, FAIL, SIZE, SWAP, ENTRYID, DATA_1) x 0..2 moved items of 1, 32, 120 bytes (thorough: also 0 and 200) x every child limit 1..need+1 (capped at f4_max_child_limit), inherit and 2000 - monitored run for each, the parent's limit sweep at both ends of the range and on every 8th child limit; the same rounds (item, 1, child, limit, CHECKPREDICATE, DROP) written three times into one program and closed into a loop. A case is a distinct (program, initial stack); its base run is monitored instruction by instruction under limit 5000 (programs of >= 3 symbols: 600 first, 5000 unless the run is a loop), then need is located and the listed limits are run. evaluations = VM runs; distinct_nontrivial = cases whose base run completed >= 2 instructions.")
 	run.Assume("the step driver (hooks/protocol/vm/zz_verif_c07.go) replicates Verify's preamble; cross-checked against vm.Verify (gas left and error class) on verify_crosschecks cases, at least once per program")
 	run.Assume("child VMs are not stepped individually: their gas accounting is observed through the parent's CHECKPREDICATE step (potential of the parent) and by running every child program as a top-level program")
 	run.Assume("a top-level CHECKPREDICATE with limit operand 0 hands the child all remaining gas, so behaviour legitimately depends on the limit; for those cases only the per-step and end-of-run bounds are asserted")
